@@ -164,6 +164,11 @@ def run_c06(prop, tier, seed, replay=None):
         # ... and random compositions
         for k in range(nstreams):
             streams.append({"kind": "stream", "seed": seed * 7 + k, "cases": [rng.choice(small) for _ in range(rng.randint(2, 6))]})
+        # short payloads followed by full-size blocks (the decoded buffers are released to the pool in between)
+        shortp = [c for c in cases if c["m"]["k"] == "Piece" and 0 < c["m"].get("n", 0) < 16384][:3]
+        fullp = [c for c in cases if c["m"]["k"] == "Piece" and c["m"].get("n", 0) == 16384][:3]
+        if shortp and fullp:
+            streams.append({"kind": "stream", "seed": seed + 5, "cases": [shortp[0], fullp[0], shortp[-1], fullp[-1], fullp[0]]})
         # one long stream with full-size blocks, cut at random points only
         streams.append({"kind": "stream", "seed": seed, "cases": [c for c in cases if c["m"].get("n", 0) == 16384][:8]})
         cases = cases + streams
